@@ -279,6 +279,13 @@ def _show(v):
   return core.canon(v)
 
 
+def _show_queue(q):
+  try:
+    return [_show(v) for v in q]
+  except TypeError:
+    return ['not-a-sequence', core.canon(q)]
+
+
 def _check_read(res, model, k, step, op_kind):
   """Compare one get_result() answer with the model. Returns a violation."""
   if not isinstance(res, dict):
@@ -293,7 +300,13 @@ def _check_read(res, model, k, step, op_kind):
     exp = sorted(pushed, key=_sortkey, reverse=True)[:max(int(k), 0)]
     got = res.get(key, [])
     if not isinstance(got, list):
-      got = list(got)
+      try:
+        got = list(got)
+      except TypeError:
+        return core.violation(
+            PROPERTY, 'H1', step, op_kind,
+            'queue of key %r is not a sequence' % (key,),
+            expected=[_show(v) for v in exp], got=core.canon(got))
     if len(got) != len(exp):
       return core.violation(
           PROPERTY, 'H1', step, op_kind,
@@ -308,7 +321,10 @@ def _check_read(res, model, k, step, op_kind):
       ok = ok and all(u in pushed_uids and pushed_uids[u] is g
                       for u, g in zip(uids, got))
     else:
-      ok = got == exp
+      try:
+        ok = bool(got == exp)
+      except Exception:  # pylint: disable=broad-except
+        ok = False
     if not ok:
       return core.violation(
           PROPERTY, 'H1', step, op_kind,
@@ -544,7 +560,7 @@ def execute(desc):
       if any(len(p) < k for p in model.values()):
         probe('k_larger_than_pushes')
       viol = _check_read(res, model, k, step, kind)
-      events.append([step, kind, [[core.canon(key), [_show(v) for v in q]]
+      events.append([step, kind, [[core.canon(key), _show_queue(q)]
                                   for key, q in sorted(
                                       res.items(),
                                       key=lambda kv: core._sort_key(  # pylint: disable=protected-access
@@ -553,7 +569,14 @@ def execute(desc):
       if viol:
         break
       if kind == 'read_mutate':
-        _mutate(res, op['how'])
+        try:
+          _mutate(res, op['how'])
+        except Exception:  # pylint: disable=broad-except
+          # what was handed out refuses modification (a read-only mapping or
+          # list): then the caller cannot disturb the container through it
+          probe('returned_copy_not_mutable')
+          absig.append(('read_mutate', op['how'], 'refused'))
+          continue
         mutated_since = True
         stats['faults']['snapshot_mutation'] = (
             stats['faults'].get('snapshot_mutation', 0) + 1)
